@@ -113,6 +113,7 @@ type Unit struct {
 	assignCover    map[string]bool
 	prefixDone     map[string]bool
 	refHeaps       map[string]bool
+	defers         map[*ssa.Function][]*deferRec
 }
 
 func (u *Unit) note(format string, a ...any) { u.notes[fmt.Sprintf(format, a...)] = true }
@@ -1027,6 +1028,10 @@ func (u *Unit) cutHeader(fn *ssa.Function, n *node, st *State, top bool) *State 
 	// inv.init
 	if l.spec != nil {
 		for _, inv := range l.spec.Invariants {
+			if inv.Assumed {
+				u.note("assumed at loop %d of %s (input well-formedness, not checked): %s", l.ordinal, fn.Name(), inv.Expr)
+				continue
+			}
 			goal := u.evalSpecBool(inv.Expr, st, fn, l)
 			o := u.oblige(st, "inv.init", fmt.Sprintf("loop%d.%s", l.ordinal, inv.Label), fn.Name(), goal, n.b.Instrs[0].Pos())
 			o.Props = inv.Props
@@ -1169,6 +1174,9 @@ func (u *Unit) keepEdge(fn *ssa.Function, n *node, e *edge, top bool) {
 		u.oblige(tmp, "inv.keep", fmt.Sprintf("loop%d.frame$%s", l.ordinal, mangle(k)), fn.Name(), u.frameUnchanged(tmp, k), n.b.Instrs[len(n.b.Instrs)-1].Pos())
 	}
 	for _, inv := range l.spec.Invariants {
+		if inv.Assumed {
+			continue
+		}
 		goal := u.evalSpecBool(inv.Expr, tmp, fn, l)
 		o := u.oblige(tmp, "inv.keep", fmt.Sprintf("loop%d.%s", l.ordinal, inv.Label), fn.Name(), goal, n.b.Instrs[len(n.b.Instrs)-1].Pos())
 		o.Props = inv.Props
